@@ -1,6 +1,7 @@
 package main
 
 import (
+	"context"
 	"encoding/json"
 	"go/ast"
 	"go/types"
@@ -80,6 +81,9 @@ func loadFindings(path string) []Finding {
 }
 
 func main() {
+	// `any` and other aliases are represented by their actual types (no *types.Alias nodes): heaps and type tags are
+	// keyed by the spelled type, so []any and []interface{} must coincide
+	os.Setenv("GODEBUG", "gotypesalias=0")
 	if len(os.Args) < 2 {
 		fmt.Fprintln(os.Stderr, "usage: vcgo check <PROP> [--tier quick|thorough] | vcgo dump <pkg> <func>")
 		os.Exit(2)
@@ -146,6 +150,23 @@ func cmdDump(args []string) int {
 		}
 	}
 	for _, key := range keys {
+		if key == "LEMMAS" {
+			for _, r := range eng.lemmaUnitsOf(ip) {
+				var jobs []solveJob
+				for _, o := range r.Obls {
+					jobs = append(jobs, solveJob{o, r.Ctx})
+				}
+				discharge(jobs, out, *budget, 0, 16)
+				fmt.Printf("== lemma %s\n", r.Key)
+				for _, e := range r.SpecErrors {
+					fmt.Println("   SPEC-ERROR:", e)
+				}
+				for _, o := range r.Obls {
+					fmt.Printf("    %-8s %-7s %5.2fs %-8s %s %s\n", o.Group, o.Result, o.Seconds, o.Solver, o.Name, oneLine(o.Detail))
+				}
+			}
+			continue
+		}
 		res, err := eng.verifyFunc(p, key, false)
 		if err != nil {
 			fmt.Println("ERROR", err)
@@ -175,6 +196,9 @@ func cmdDump(args []string) int {
 			if *doReplay && o.Result == "sat" && o.Expect == "unsat" {
 				ok, out := tryReplay(eng, res, o)
 				fmt.Printf("      REPLAY confirmed=%v: %s\n", ok, strings.ReplaceAll(out, "\n", "\n        "))
+			} else if *doReplay && o.Expect == "unsat" && o.Result != "unsat" && o.Group != "canary" {
+				ok, out := relaxedReplay(eng, res, o)
+				fmt.Printf("      RELAXED-REPLAY confirmed=%v: %s\n", ok, strings.ReplaceAll(out, "\n", "\n        "))
 			}
 			if *showQ != "" && strings.Contains(o.Name, *showQ) {
 				fmt.Println(finalQuery(res.Ctx, o.Query))
@@ -297,10 +321,25 @@ func runCheck(id, tier string, seed int) int {
 			jobs = append(jobs, solveJob{o, r.Ctx})
 		}
 	}
+	lemmasDone := map[string]bool{}
 	for _, pu := range spec.Units {
 		ip := repoMod
 		if pu.Pkg != "." {
 			ip = repoMod + "/" + pu.Pkg
+		}
+		if !lemmasDone[ip] {
+			lemmasDone[ip] = true
+			for _, r := range eng.lemmaUnitsOf(ip) {
+				results = append(results, r)
+				unitOf[r] = PropUnit{Pkg: pu.Pkg, Func: r.Key}
+				for _, e := range r.SpecErrors {
+					fmt.Printf("UNDECIDED: lemma %s: %s\n", r.Key, e)
+					broken = true
+				}
+				for _, o := range r.Obls {
+					jobs = append(jobs, solveJob{o, r.Ctx})
+				}
+			}
 		}
 		p := eng.pkgs[ip]
 		if p == nil {
@@ -529,9 +568,45 @@ func writeReplay(eng *Engine, path, prop string, res *UnitResult, o *Obligation)
 			fmt.Fprintf(&b, "\nreplay: %s\nno-failing-input-found\n", out)
 		}
 	} else {
-		fmt.Fprintf(&b, "\nno counterexample from the solver (%s): the obligation is undischarged.\nsolver output:\n%s\nno-failing-input-found\n", o.Result, o.Model)
+		fmt.Fprintf(&b, "\nno counterexample from the solver (%s): the obligation is undischarged.\nsolver output:\n%s\n", o.Result, o.Model)
+		// candidate search: drop the quantified hypotheses (they are what keeps the solvers from answering sat) and
+		// validate whatever model comes back by running it against the real code
+		if ok, out := relaxedReplay(eng, res, o); ok {
+			suffix = ""
+			fmt.Fprintf(&b, "\ncandidate input from the quantifier-free relaxation of the query, confirmed against the real code:\n%s\n", out)
+		} else {
+			fmt.Fprintf(&b, "\nrelaxed candidate search: %s\nno-failing-input-found\n", out)
+		}
 	}
 	fmt.Fprintf(&b, "\nquery file: %s\n", obFile(filepath.Dir(filepath.Dir(path)), o))
 	os.WriteFile(path, []byte(b.String()), 0o644)
 	return suffix
+}
+
+// relaxedReplay: re-solve the obligation without its quantified assumptions; a model of the relaxation is only a candidate
+// and counts only if the replay on the real code fails.
+func relaxedReplay(eng *Engine, res *UnitResult, o *Obligation) (bool, string) {
+	if res.unit == nil || res.unit.decl == nil {
+		return false, "not a function obligation"
+	}
+	lines := strings.Split(o.Query, "\n")
+	var kept []string
+	for i, l := range lines {
+		last := i >= len(lines)-3
+		if strings.HasPrefix(l, "(assert ") && !last && (strings.Contains(l, "(forall ") || strings.Contains(l, "(exists ")) {
+			continue
+		}
+		kept = append(kept, l)
+	}
+	relaxed := *o
+	relaxed.Query = strings.Join(kept, "\n")
+	file := filepath.Join(eng.verifDir, "out", "replaytmp", sanitizeFile(o.Name)+".relaxed.smt2")
+	os.MkdirAll(filepath.Dir(file), 0o755)
+	os.WriteFile(file, []byte(finalQuery(res.Ctx, relaxed.Query)), 0o644)
+	r, out := runSolver(context.Background(), solvers[0], file, 8000, 0)
+	if r != "sat" {
+		return false, "relaxed query is " + r
+	}
+	relaxed.Result, relaxed.Model = "sat", modelOf(r, out)
+	return tryReplay(eng, res, &relaxed)
 }
